@@ -6,6 +6,7 @@ import (
 	"bytes"
 	"encoding/hex"
 	"fmt"
+	"slices"
 	"strings"
 
 	"github.com/c2FmZQ/ech"
@@ -287,6 +288,18 @@ func Run(r *ev.Run) {
 				}
 			}
 			jobs = append(jobs, job{mutation{b, "extension-removed-after-sealing", 0}, h2.Record(), keys})
+		}
+		// a well-formed DUPLICATE of an extension the hello already has, inserted after sealing (right after the original, and at
+		// the end of the block): a parser that keeps "the first one" must not leave the copy out of what it authenticates
+		for i, e := range built.Outer.Exts {
+			if i == s.EchIdx {
+				continue // (a second ECH extension is refused outright: C04/C08)
+			}
+			for _, at := range []int{i + 1, len(built.Outer.Exts)} {
+				h := built.Outer.Clone()
+				h.Exts = slices.Insert(h.Exts, at, tlsref.Ext{Type: e.Type, Data: slices.Clone(e.Data)})
+				jobs = append(jobs, job{mutation{b, fmt.Sprintf("duplicate-extension-inserted-after-sealing-type%d", e.Type), at}, h.Record(), keys})
+			}
 		}
 		// CONSISTENTLY sealed hellos (AAD and info as the client sees them) that name a config id the server does not
 		// hold, although the HPKE key is one the server holds: acceptance would mean trial decryption with unnamed keys
